@@ -413,7 +413,7 @@ func sharedStress(enc *json.Encoder, g int) {
 	if g < 8 {
 		g = 8
 	}
-	deadline := time.Now().Add(12 * time.Second)
+	deadline := time.Now().Add(6 * time.Second)
 	n := 0
 	for trial := 0; trial < trials && time.Now().Before(deadline); trial++ {
 		prog := fresh()
@@ -489,8 +489,8 @@ func sharedFrozenStress(enc *json.Encoder, g int) {
 	if g < 6 {
 		g = 6
 	}
-	deadline := time.Now().Add(10 * time.Second)
-	for trial := 0; trial < 40 && time.Now().Before(deadline); trial++ {
+	deadline := time.Now().Add(5 * time.Second)
+	for trial := 0; trial < 16 && time.Now().Before(deadline); trial++ {
 		shared := mk()
 		var wg sync.WaitGroup
 		var mux sync.Mutex
